@@ -37,9 +37,11 @@ pub fn run(r: &mut Report) {
     {
         let t = crate::fixture::tmpdir();
         let root = t.path().to_str().unwrap().to_string();
-        let files = ["build/build/cache.o", "build/app", "build/build/build/deep", "aa/aa/aa/f", "aa/g", "ab/ab", "x/y/x/y/z"];
+        let files = ["build/build/cache.o", "build/app", "build/build/build/deep", "aa/aa/aa/f", "aa/g", "ab/ab", "x/y/x/y/z",
+                     "donn\u{e9}es/alpha.txt", "donn\u{e9}es/beta.txt", "\u{6784}\u{5efa}/\u{8f93}\u{51fa}/app.bin", "\u{6784}\u{5efa}/\u{8f93}\u{51fa}/bpp.bin", "\u{1f600}/e\u{301}/f"];
         for f in files { let p = t.path().join(f); std::fs::create_dir_all(p.parent().unwrap()).unwrap(); std::fs::write(&p, f).unwrap(); }
-        for prefixes in [vec!["build/"], vec!["aa/"], vec!["aa/", "aa/aa/"], vec!["x/y/"], vec!["a"], vec!["build/", "aa/", "ab/", "x/"], vec![""]] {
+        for prefixes in [vec!["build/"], vec!["aa/"], vec!["aa/", "aa/aa/"], vec!["x/y/"], vec!["a"], vec!["build/", "aa/", "ab/", "x/"], vec![""],
+                         vec!["donn\u{e9}es/"], vec!["\u{6784}\u{5efa}/\u{8f93}\u{51fa}/"], vec!["\u{6784}\u{5efa}/", "\u{1f600}/e\u{301}/", "donn\u{e9}es/"]] {
             let full: Vec<String> = prefixes.iter().map(|p| format!("{}/{}", root, p)).collect();
             let refs: Vec<&str> = full.iter().map(|x| x.as_str()).collect();
             let got = no_panic(|| record_artifacts(&[root.as_str()], None, Some(&refs)));
@@ -54,11 +56,12 @@ pub fn run(r: &mut Report) {
         }
         // the same with RELATIVE arguments and prefixes (recorded from inside the directory), where a prefix can repeat at the very
         // front of what is left after removing it
-        for prefixes in [vec!["build/"], vec!["aa/"], vec!["aa/", "aa/aa/"], vec!["x/y/"], vec!["a"], vec!["build/", "aa/", "ab/", "x/"], vec!["build/build/"], vec!["x/", "x/y/x/"]] {
+        for prefixes in [vec!["build/"], vec!["aa/"], vec!["aa/", "aa/aa/"], vec!["x/y/"], vec!["a"], vec!["build/", "aa/", "ab/", "x/"], vec!["build/build/"], vec!["x/", "x/y/x/"],
+                         vec!["donn\u{e9}es/"], vec!["\u{6784}\u{5efa}/\u{8f93}\u{51fa}/"], vec!["\u{6784}\u{5efa}/", "\u{1f600}/e\u{301}/", "donn\u{e9}es/"]] {
             let _g = crate::c08::CWD_LOCK.lock().unwrap();
             let old = std::env::current_dir().unwrap();
             std::env::set_current_dir(t.path()).unwrap();
-            let got = no_panic(|| record_artifacts(&["build", "aa", "ab", "x"], None, Some(&prefixes)));
+            let got = no_panic(|| record_artifacts(&["build", "aa", "ab", "x", "donn\u{e9}es", "\u{6784}\u{5efa}", "\u{1f600}"], None, Some(&prefixes)));
             std::env::set_current_dir(old).unwrap();
             let mut want: Vec<String> = files.iter().map(|f| { let best = prefixes.iter().filter(|l| f.starts_with(**l)).max_by_key(|l| l.len()); match best { Some(l) => f[l.len()..].to_string(), None => f.to_string() } }).collect();
             want.sort();
